@@ -177,6 +177,17 @@ Theorem constraints_genuine_partial :
 Proof. exact interp_constraints_genuine. Qed.
 Print Assumptions constraints_genuine_partial.
 
+(* RelativeTimelock: the model's [CsOlder t] carries the script's operand; the implementation
+   reports the relative::LockTime it denotes, [rel_norm t] (type flag + low 16 bits; the bits CSV
+   ignores are dropped by the conversion).  Both stand for the same CSV condition and the same
+   validity; the tie and the oracle compare relative locks through [rel_norm]. *)
+Theorem reported_older_equivalent :
+  forall (e : env) (t : N), N.land t SEQ_DISABLE = 0 ->
+    check_sequence e (Z.of_N (rel_norm t)) = check_sequence e (Z.of_N t) /\
+    (cvalid e (CsOlder (rel_norm t)) <-> cvalid e (CsOlder t)).
+Proof. exact rel_norm_equiv. Qed.
+Print Assumptions reported_older_equivalent.
+
 (* on the specification's satisfaction table (coq/Ms/SatSpec.v: the entries the library's
    satisfier answers from, C01/C02): every table satisfaction of a well-typed B script is
    accepted.  [assets_fit]: the caller's assets are genuine w.r.t. the environment (C01's
